@@ -40,7 +40,7 @@ SETS = {"active_index_set", "old_index_set"}
 
 
 def check_observers_do_not_modify(prog, ctx, cs, related):
-    """C01.D8: only the initialisers and the refinement step change the index sets; every other method of CombiScheme (getCombiScheme,
+    """C01.D9: only the initialisers and the refinement step change the index sets; every other method of CombiScheme (getCombiScheme,
     the coefficient computation, the predicates and getters) leaves them as they are -- no store, no in-place update (`|=`, `.add`,
     `.update`, ...), neither on `self.<set>` nor through a local bound to it.  Otherwise *observing* the scheme between two refinement
     steps changes what the next step sees (old and active set overlap, active indices with forward neighbours)."""
@@ -58,10 +58,10 @@ def check_observers_do_not_modify(prog, ctx, cs, related):
             ok = not direct and not alias
             where = fi.loc(direct[0].stmt) if direct else (fi.loc(alias[0][1]) if alias else fi.loc())
             why = ("`%s` writes self.%s" % (src(direct[0].stmt)[:80], direct[0].attr)) if direct else (alias[0][2] if alias else "")
-            ctx.check(ok, "C01.D8", R.key_of(fi, "observer-does-not-modify"), where,
+            ctx.check(ok, "C01.D9", R.key_of(fi, "observer-does-not-modify"), where,
                       "%s does not change the index sets / lmin" % name,
                       "%s is an observer of the scheme but %s: reading the scheme changes the state the next refinement step starts from" % (name, why))
-    ctx.floor("C01.D8", n, 8, "observer methods of CombiScheme")
+    ctx.floor("C01.D9", n, 8, "observer methods of CombiScheme")
 
 
 def run(prog, ctx):
